@@ -2,6 +2,43 @@
 import vlib
 
 
+def reuse_scenario(ctx, recs_main):
+    """Known finding C03-port-reuse: the schedule TLC finds with ReusePorts = TRUE (a delayed
+    response to a timed-out interleaved request reaches the next attempt's socket, which got the
+    same ephemeral port) executed on the real clients in a network namespace whose ephemeral port
+    range is one port."""
+    import os, subprocess
+    r = ctx.tlc("NtpExchangeGen", "NtpExchange_reuse.cfg", workers=1, timeout=300, simulate="num=3000", depth=90,
+                allow_violation=True, tag="reuse-spec")
+    ctx.notes.append("NtpExchange.tla with ReusePorts=TRUE: TLC reports %s (expected: PrevConsistent / SameExchange)" % r["violated"])
+    outp = ctx.path("reuse.ndjson")
+    env = vlib.goenv()
+    env.update(VERIF_FIXED_PORTS="1", VERIF_IN=os.path.join(vlib.SPEC, "mc", "NtpExchange_reuse.ndjson"), VERIF_OUT=outp,
+               VERIF_SEED=str(ctx.seed))
+    vlib.ensure_harness()
+    mod = ("-modfile=" + vlib.alt_modfile()) if vlib.REPO != "/repo" else ""
+    cmd = ("ip link set lo up && sysctl -qw net.ipv4.ip_local_port_range='40000 40000' && cd %s && "
+           "%s test -tags verif -count 1 -vet=off %s -run ^TestC03Reuse$ ./c03" % (vlib.HARNESS, vlib.GO, mod))
+    p = subprocess.run(["timeout", "300", "unshare", "-n", "sh", "-c", cmd], env=env, stdout=subprocess.PIPE,
+                       stderr=subprocess.STDOUT, text=True)
+    if p.returncode != 0 or not os.path.exists(outp):
+        ctx.notes.append("port-reuse scenario not run (no network namespace available?): %s" % p.stdout[-300:])
+        return
+    recs = vlib.read_ndjson(outp)
+    for attempt in range(6):
+        pp = ctx.path("reuse_cur.ndjson")
+        vlib.write_ndjson(pp, recs)
+        ok, l, inv, tout = ctx.validate("NtpExchangeTrace", "NtpExchangeTrace_mon.cfg", pp)
+        if ok:
+            break
+        bad = recs[l - 1]
+        ctx.violation("C03 %s %s port-reuse" % (inv, "interleaved" if bad["il"] else "basic"),
+                      "with the ephemeral port reused, accepted measurement violates %s: %s" % (inv, bad),
+                      {"record": bad, "schedule": "spec/mc/NtpExchange_reuse.ndjson"})
+        recs = [x for x in recs if x["beh"] != bad["beh"]]
+    ctx.cov["port_reuse_records"] = len(vlib.read_ndjson(outp))
+
+
 def run(ctx):
     q = ctx.quick
     r = ctx.tlc("NtpExchangeMC", "NtpExchange_exh.cfg" if q else "NtpExchange_deep.cfg",
@@ -22,7 +59,7 @@ def run(ctx):
         raise vlib.Inconclusive("generator produced only %d schedules" % len(scheds))
     cp = ctx.path("scheds.ndjson")
     vlib.write_ndjson(cp, scheds)
-    tp, out = ctx.godriver("c03", "TestC03", cases=cp, timeout=1500)
+    tp, out = ctx.godriver("c03", "^TestC03$", cases=cp, timeout=1500)
     recs = vlib.read_ndjson(tp)
     acc = [x for x in recs if x["ev"] == "accept"]
     ctx.log("driver: %d schedules, %d records, %d accepted measurements (%d interleaved)" %
@@ -47,6 +84,7 @@ def run(ctx):
         ok, l, inv, tout = ctx.validate("NtpExchangeTrace", "NtpExchangeTrace_strict.cfg", tp)
         if not ok:
             ctx.drift.append("client reaction differs from NtpExchange.tla: %s" % (recs[l - 1] if l else "?"))
+    reuse_scenario(ctx, recs)
     ctx.cov.update(traces_validated_against_impl=nval, evaluations=len(recs),
                    distinct_nontrivial=len({(x["il"], x["t0ex"], x["t1h"], x["t2r"], x["ex"]) for x in acc}),
                    accepted=len(acc), accepted_interleaved=sum(1 for x in acc if x["il"]),
